@@ -243,6 +243,19 @@ def rule_nondet(report, run, label, clause=None):
         report.violation("R-NONDET", where_of(e), f"{run.cls.name}.{run.entry.name}: call of {e.what}", None, clause)
     if not seen:
         report.ok("R-NONDET", run.entry, label, None, clause)
+    # calls that change what the rest of the process runs under (recursion limit, locale, working directory, ...): the outcome
+    # of a later call then depends on whether this one came first
+    seen = set()
+    for e in run.events("procstate"):
+        key = (e.fn.key if e.fn else "?", e.what)
+        if key in seen:
+            continue
+        seen.add(key)
+        report.violation("R-PROCSTATE", where_of(e), f"{run.cls.name}.{run.entry.name}: call of {e.what}",
+                         {"why": "changes the state of the whole process: what a later read or write does (or whether it raises) "
+                                 "then depends on this call having happened"}, clause)
+    if not seen:
+        report.ok("R-PROCSTATE", run.entry, label.replace("non-deterministic", "process-state changing"), None, clause)
 
 
 def reachable_regions(v, heap, depth=8, path="result", seen=None, out=None):
